@@ -65,7 +65,7 @@ def run(fb, rep, tier):
 # ----------------------------------------------------------------------------- .1
 
 def c1_typestate(fb, rep):
-    for cls, member, floor in (('UCIProtocol', 'engine', 9), ('EngineControl', 'sc', 6)):
+    for cls, member, floor in (('UCIProtocol', 'engine', 7), ('EngineControl', 'sc', 6)):
         clause = 'C05.1'
         if rep.need(clause, fb.field('%s::%s' % (cls, member)), 'field %s::%s' % (cls, member)) is None:
             continue
@@ -397,33 +397,45 @@ def c5_readyok_quit(fb, rep, cg):
             w = ml.path_avoiding((t, -1), lambda e: e is not None and e.get('k') == 'call' and cname(e).endswith('getline'), R.never)
             rep.ob(clause, 'K2 loop exit', 'protocol loop: quit flag set => no further input is read', w is None,
                    '%s:%s' % (ml.file, ml.blocks[bid]['term'].get('ln')), '', ml.sname)
-        # EOF path: stopSearch (under the null guard, C05.1) before leaving
-        brg = R.branch_blocks(ml, lambda e: e.get('k') == 'call' and cname(e).split('::')[-1] == 'good')
-        rep.floor(clause, 'EOF test in the protocol loop', len(brg), 1)
-        for bid, pol, t, f_ in brg:
-            eof = f_
-            def guard_false(e):
-                return False
-            # every path from the EOF branch to exit either calls stopSearch or tested engine==null
-            seenx = []
+        # whatever way the loop is left (end of input in any form, the quit command): a search that may be running was
+        # stopped before the engine thread is told to quit - quit() only sets a flag the engine thread reads when idle,
+        # so an unstopped infinite / ponder search would never end and the process never exit.  State per path:
+        # 'open' after a command was dispatched (it may have started a search); 'stopped' after stopSearch(); 'noengine'
+        # where the engine object is known to be null; 'quitcmd' where the quit flag was seen set (its arm stops first).
+        def tr_q(e, c, pos):
+            if e.get('k') == 'call' and cname(e) == 'EngineControl::stopSearch':
+                return ['stopped']
+            if e.get('k') == 'call' and cname(e) == 'UCIProtocol::handleCommand':
+                return ['open']
+            if e.get('k') == 'call' and cname(e) == 'EngineMainThread::quit':
+                seen_q.append(c)
+            return [c]
 
-            def tr(e, c, pos):
-                if e.get('k') == 'call' and cname(e) == 'EngineControl::stopSearch':
-                    return ['stopped']
-                return [c]
-
-            def rf(cond, truth, c):
-                e2, pol2 = strip_not(cond)
-                if isinstance(e2, dict) and e2.get('k') == 'call' and cname(e2).split('::')[-1] == 'operator bool' and \
-                        ap(e2.get('recv')) == 'this.engine':
-                    if (truth == pol2) is False:
-                        return ['noengine']
-                return [c]
-            sub = _SubFunc(ml, eof)
-            fl = Flow(sub, tr, rf).run({'open'})
-            ok = fl.at_exit <= {'stopped', 'noengine'} and bool(fl.at_exit)
-            rep.ob(clause, 'K2 must-pass-through', 'protocol loop: EOF stops a running search before quitting', ok,
-                   '%s:%s' % (ml.file, ml.blocks[bid]['term'].get('ln')), 'states at exit: %s' % sorted(fl.at_exit), ml.sname)
+        def rf_q(cond, truth, c):
+            e2, pol2 = strip_not(cond)
+            if isinstance(e2, dict) and e2.get('k') == 'call' and cname(e2).split('::')[-1] == 'operator bool' and ap(e2.get('recv')) == 'this.engine':
+                if (truth == pol2) is False:
+                    return ['noengine']
+            if ap(e2) == 'this.quit' and (truth == pol2):
+                return ['quitcmd']
+            return [c]
+        seen_q = []
+        Flow(ml, tr_q, rf_q).run({'open'})
+        okq = bool(seen_q) and set(seen_q) <= {'stopped', 'noengine', 'quitcmd'}
+        rep.ob(clause, 'K2 must-pass-through', 'protocol loop: on every way out, a search that may be running was stopped before engineThread.quit()', okq, ml.where,
+               'states in which quit() is reached: %s' % sorted(set(seen_q)), ml.sname)
+        # the quit arm of the command handler stops the search before it raises the flag
+        if hc is not None:
+            for bid, pol, t, f_ in R.branch_blocks(hc, R.str_eq_cond(None, 'quit')):
+                def setq2(e):
+                    return e is not None and e.get('k') == 'asg' and ap(e.get('l')) == 'this.quit'
+                w = hc.path_avoiding((t, -1), setq2, lambda e: e is not None and ((e.get('k') == 'call' and cname(e) == 'EngineControl::stopSearch')))
+                # paths on which the engine is null need no stop: accept a path only if it goes through the null branch
+                nullok = True
+                if w is not None:
+                    doms_ = hc.dominators()
+                    nullok = any((hc.blocks[bb].get('term') or {}).get('cond') is not None and 'engine' in show(hc.blocks[bb]['term']['cond'], 80) for bb, _ in w)
+                rep.ob(clause, 'K2 must-precede', 'quit arm: a running search is stopped before the quit flag is raised', w is None or nullok, hc.where, '', hc.sname)
     q = fb.find1('EngineMainThread::quit')
     if rep.need(clause, q, 'EngineMainThread::quit'):
         def setq(e):
